@@ -205,6 +205,8 @@ def _shards(tier):
                 combos = [(a, b, c, e) for a in (False, True) for b in (False, True) for c in range(3) for e in range(3)] + [x for x in cover if 3 in x[2:]]
             elif len(sh["ops"]) > 1:
                 combos = [x for x in cover if not (x[0] and x[1])]  # both-defaults only for single operations in quick
+                if 4 in sh["ops"]:
+                    combos = [x for x in combos if x != (False, True, 2, 0)]  # > 5 min on its own: thorough tier only
             else:
                 combos = cover
             for a, b, c, e in combos:
